@@ -9,14 +9,14 @@ worst = {}
 for cid in ids:
     for s in seeds:
         t0 = time.time()
-        p = subprocess.run(['./check.sh', cid, tier], cwd='/verif', env=dict(os.environ, VERIF_SEED=str(s)), stdout=subprocess.PIPE, stderr=subprocess.STDOUT)
+        p = subprocess.run(['./check.sh', cid, tier], cwd='/verif', env=dict(os.environ, VERIF_SEED=str(s), AVM_OUT_DIR='/tmp/calib_out'), stdout=subprocess.PIPE, stderr=subprocess.STDOUT)
         dt = time.time() - t0
         out = p.stdout.decode()
         line = out.strip().splitlines()[0] if out.strip() else ''
         print(f'{cid} seed={s} exit={p.returncode} {dt:.1f}s {line[:150]}', flush=True)
         if p.returncode != 0:
             print(out[-1500:])
-        e = json.load(open(f'/verif/evidence/{cid}.json'))
+        e = json.load(open(f'/tmp/calib_out/evidence/{cid}.json'))
         for k, f in e['coverage']['floors'].items():
             r = f['observed'] / f['min'] if f['min'] else float('inf')
             key = (cid, k)
